@@ -931,6 +931,11 @@ func gen(tier string, seed uint64) []runner.Scenario {
 		id := "fixed/two-foreign-packages-" + name
 		out = append(out, runner.Scenario{ID: id, Run: func() runner.Result { return checkSpec(id, f, idx, seed) }})
 	}
+	for k, order := range [][]string{{"alpha", "beta"}, {"beta", "alpha"}, {"alpha", "beta", "gamma"}} {
+		order := order
+		id := fmt.Sprintf("mux/same-printed-types/%d", k)
+		out = append(out, runner.Scenario{ID: id, Run: func() runner.Result { return muxSameNames(id, order) }})
+	}
 	for _, name := range sortedKeys(twinSpecs()) {
 		f := twinSpecs()[name]
 		name, f, idx := name, f, 5000+len(out)
